@@ -34,8 +34,15 @@ impl WordLexer<'_, '_> {
             };
             let is_escapable =
                 |c| matches!(c, '$' | '`' | '\\') || c == '"' && double_quote_escapable;
-            if let Some(c) = self.consume_char_if(is_escapable).await? {
-                return Ok(Some(BackquoteUnit::Backslashed(c.value)));
+            // The character that immediately follows the backslash is examined,
+            // so line continuations must not be skipped here.
+            let c = self
+                .disable_line_continuation()
+                .consume_char_if(is_escapable)
+                .await?
+                .map(|c| c.value);
+            if let Some(c) = c {
+                return Ok(Some(BackquoteUnit::Backslashed(c)));
             } else {
                 return Ok(Some(BackquoteUnit::Literal('\\')));
             }
